@@ -386,6 +386,23 @@ static void op_eval(void) {
       printf("\n");
     }
   }
+  // every built-in sensor once more through the public mj_computeSensor into a canary-guarded scratch buffer:
+  // a sensor of dimension dim must write exactly dim entries
+  for (int i = 0; i < m->nsensor; i++) {
+    if (m->sensor_type[i] == mjSENS_USER || m->sensor_type[i] == mjSENS_PLUGIN) continue;
+    int dim = m->sensor_dim[i];
+    double* buf = (double*)malloc(sizeof(double) * (dim + 8));
+    for (int k = 0; k < dim + 8; k++) buf[k] = 1.2345e123;
+    mj_computeSensor(m, d, i, buf);
+    int over = 0, same = 1, unwritten = 0;
+    for (int k = dim; k < dim + 8; k++) if (buf[k] != 1.2345e123) over = 1;
+    for (int k = 0; k < dim; k++) {
+      if (memcmp(&buf[k], &d->sensordata[m->sensor_adr[i] + k], 8)) same = 0;
+      if (buf[k] == 1.2345e123) unwritten = 1;
+    }
+    printf("recomp %d %d %d %d\n", i, over, same, unwritten);
+    free(buf);
+  }
   // kinetic energy through the inertia API: 1/2 v' M v
   if (m->nv) {
     double* mv = (double*)malloc(sizeof(double) * m->nv);
